@@ -6,7 +6,12 @@ bool fixtureMarkupSearchBad(const std::string &math)
     return math.find("<cn") != std::string::npos; // does not see <mml:cn ...>
 }
 
+bool fixtureMarkupSearchBadQName(const std::string &math)
+{
+    return math.find("cellml:units") != std::string::npos; // does not see cml:units with xmlns:cml bound to the CellML namespace
+}
+
 bool fixtureMarkupSearchGood(const std::string &math)
 {
-    return math.find("units") != std::string::npos;
+    return math.find("units") != std::string::npos || math.find("http://www.w3.org") != std::string::npos || math.find("std::string") != std::string::npos;
 }
